@@ -66,7 +66,9 @@ SPECIAL = ['collection-length', 'comma-numeric', 'dollars-and-cents',
 METHODS = ['upper', 'lower', 'strip', 'title', 'casefold', 'swapcase',
            'capitalize', 'lstrip', 'rstrip', 'split', 'rsplit', 'splitlines',
            'format', 'expandtabs', 'encode', 'isdigit', 'zfill']
-CARRIERS = ['qz1234567.5', "q_z %3C'", 'q\nz', 'qq\nzz\tqz']
+CARRIERS = ['qz1234567.5', "q_z %3C'", 'q\nz', 'qq\nzz\tqz',
+            # letters, digits and blanks beyond ASCII
+            'q\xc9z\xdf\xa0\u03a3\uff11']
 
 # atoms: (dimension, alternative)
 CFMTS = ['%s!', '%d', '%.2f', '$%.2f each', '%x', '%c', '%5s', '[%r]']
